@@ -18,6 +18,9 @@ def parseScript (s : String) : Option (List Outcome) :=
     | some l, 's' => some (.wakeSelf :: l)
     | some l, 'c' => some (.cloneWaker :: l)
     | some l, 'W' => some (.remoteWake :: l)
+    | some l, 'R' => some (.wakeReady :: l)
+    | some l, 'X' => some (.wakePanic :: l)
+    | some l, 'C' => some (.cloneReady :: l)
     | some l, 'r' => some (.ready :: l)
     | some l, 'x' => some (.panic :: l)
     | _, _ => none) (some [])
